@@ -97,8 +97,9 @@ def main():
     if args.keep and report.get("confirmed"):
         target = os.path.join(VERIF, "seeded", args.keep)
         os.makedirs(target, exist_ok=True)
-        shutil.copy(patch, os.path.join(target, "patch.diff"))
-        shutil.copy(demo, os.path.join(target, "demo.py"))
+        if os.path.abspath(target) != seed_dir:
+            shutil.copy(patch, os.path.join(target, "patch.diff"))
+            shutil.copy(demo, os.path.join(target, "demo.py"))
         meta.update({
             "breaks_property": meta.get("property"),
             "confirmed_on_repo_commit": report["repo_commit"],
